@@ -264,6 +264,8 @@ def run_calc(case, w, objs, clock=None, scheduler=None):
         scheduler = cls(resources=resources_of(case), balance_resources=case['balance'],
                         default_estimate=py_num(case['defaultEst'], False), **kw)
         prior = case.get('prior')
+        if prior == 'fail' and not any(nm == 'zz' for nm, _ in case['resources']):
+            prior = None         # (a shrunk case that lost the poisoned resource: no earlier failing calc)
         if prior:
             # an earlier use of the same scheduler object: a successful calc of the same WBS, or a calc that fails in the middle
             # of its pass (a last root task on the dead resource 'zz') - the calc that follows must not see any of it
